@@ -66,8 +66,8 @@ func CheckC09(l *Lab, verifDir string) int {
 				}
 				ov := c09Round(rep, m, r, ts)
 				totalOverlap += ov
-				if !m.GW.Alive() {
-					break
+				if !m.GW.Alive() || rep.ViolationCount() > 10 || rep.InconclusiveCount() > 200 {
+					break // a broken tree: further rounds only cost watchdog time
 				}
 			}
 			finishGatewayMonitors(rep, m.GW, "C09")
